@@ -331,12 +331,3 @@ def run(p, led, tier):
             led.ok("C09-R6", key, where(m, m.node), f"{len(hit)} path(s) on which the limit test held all end SENESCENT")
 
 
-def _is_limit_test(label, needle):
-    return needle in label and any(op in label for op in (">=", ">"))
-
-
-def _only_decreases(maxcall):
-    for a in maxcall.args:
-        if isinstance(a, ast.BinOp) and isinstance(a.op, ast.Sub):
-            return True
-    return False
